@@ -1,6 +1,6 @@
 ---- MODULE MC_Assemble ----
 EXTENDS Assemble, Json, SequencesExt
 RowList == SetToSeq(Rows)
-Emit == (n >= 1) => PrintT("@@EMIT@@" \o ToJson([par |-> par, kind |-> kind, akind |-> akind, hkind |-> hkind,
-             rows |-> [i \in 1..Cardinality(Rows) |-> [cells |-> RowList[i], alive |-> Survivors(RowList[i]), extras |-> Extras(RowList[i])]]]))
+Emit == (n >= 1) => PrintT("@@EMIT@@" \o ToJson([par |-> par, kind |-> kind, akind |-> akind, hkind |-> hkind, h2 |-> h2,
+             rows |-> [i \in 1..Cardinality(Rows) |-> [cells |-> RowList[i], alive |-> Survivors(RowList[i]), extras |-> Extras(RowList[i]), h2part |-> H2Part(RowList[i])]]]))
 ====
